@@ -63,6 +63,9 @@ def plan(tier, seed):
             cases.append(dict(key=f"pressure/{fk}/{mk}/amp={amp}", kind="pressure", mesh=mk, fk=fk, amp=amp, seed=seed, cost=4))
     for fk, mk in (("3d", "hexahedron"), ("ps", "quad"), ("axi", "quad"), ("mixed3d", "hexahedron")):
         cases.append(dict(key=f"pointload/{fk}", kind="pointload", mesh=mk, fk=fk, seed=seed))
+        # (field values held in another memory layout: column-major start values, a view on a wider table)
+        for lay in ("F", "view"):
+            cases.append(dict(key=f"pointload/{fk}/values={lay}", kind="pointload", mesh=mk, fk=fk, layout=lay, seed=seed))
     for fk, mk in (("3d", "hexahedron"), ("ps", "quad")):
         cases.append(dict(key=f"constraints/{fk}", kind="constraints", mesh=mk, fk=fk, seed=seed))
     return cases
@@ -362,6 +365,12 @@ def run(case):
         mixed = case["fk"] == "mixed3d"
         fk = "3d" if mixed else case["fk"]
         mesh, region, field = make_field(case["mesh"], "renum", fk, seed, mixed=mixed)
+        if case.get("layout") == "F":
+            field.fields[0].values = np.asfortranarray(field.fields[0].values + 0.01 * zoo.offarr(seed, 1420, field.fields[0].values.shape))
+        elif case.get("layout") == "view":
+            wide_ = np.zeros((field.fields[0].values.shape[0], field.fields[0].values.shape[1] + 2))
+            wide_[:, 1:-1] = field.fields[0].values + 0.01 * zoo.offarr(seed, 1420, field.fields[0].values.shape)
+            field.fields[0].values = wide_[:, 1:-1]
         nd = mesh.dim
         N = values_of(field).size
         for pts in ([1], [1, 5, 3], [0, 2, 4, 6]):
